@@ -53,6 +53,7 @@ class FakeAtlas:
         self.lock = threading.Lock()
         self.nonces = set()
         self.seq = 0
+        self.once_used = set()     # faults marked "once" that have fired
         outer = self
 
         class H(socketserver.BaseRequestHandler):
@@ -191,6 +192,12 @@ class FakeAtlas:
             return not close
 
         fault = sc.faults.get(key) if key else None
+        if fault and fault[-1] == "once":
+            if key in self.once_used:
+                fault = None
+            elif rec.get("authorization") or sc.auth == "none":
+                with self.lock:
+                    self.once_used.add(key)
         # --- authentication
         if sc.auth in ("digest", "reject", "digest_unknown") and not auth:
             nonce = hashlib.sha1(os.urandom(16)).hexdigest()
